@@ -77,6 +77,63 @@ def rule_converters(ctx):
     # the converted value itself is what is stored
     ap = [m for m in s.by_kind("mutate") if m.how == "method:append"]
     good = bool(ap) and all(m.val.op == "tuple" and len(m.val.a) == 1 and m.val.a[0].op == "call" and m.val.a[0].a[0].op == "iter" for m in ap)
+    if not good and ap:
+        # values may travel through intermediate lists (rows first, columns afterwards): every appended value is either
+        # converter(value) itself or read back, unchanged, from a list that only ever received such values
+        def is_conv(v):
+            return v.op == "call" and v.a[0].op == "iter" and len(v.a[1]) == 1
+
+        by_root = {}
+        for m in ap:
+            v = m.val.a[0] if m.val.op == "tuple" and len(m.val.a) == 1 else None
+            by_root.setdefault(m.root, []).append(v)
+        ok_roots = set()
+        changed = True
+        while changed:
+            changed = False
+            for rt, vals in by_root.items():
+                if rt in ok_roots:
+                    continue
+
+                def val_ok(v, depth=0):
+                    if v is None or depth > 10:
+                        return False
+                    if is_conv(v):
+                        return True
+                    if v.op == "comp" and v.a[0] == "list" and not v.a[3]:
+                        return val_ok(v.a[1], depth + 1)
+                    if v.op in ("list", "tuple"):
+                        return all(val_ok(z, depth + 1) for z in v.a)
+                    if v.op == "iter":
+                        return val_ok(v.a[0], depth + 1)
+                    if v.op in ("loop", "loopvar"):
+                        return v.a[1] in (ok_roots | {rt})
+                    if v.op == "ite":
+                        return val_ok(v.a[1], depth + 1) and val_ok(v.a[2], depth + 1)
+                    return False
+
+                def has_source(v, depth=0):
+                    if v is None or depth > 10:
+                        return False
+                    if is_conv(v):
+                        return True
+                    if v.op == "comp":
+                        return has_source(v.a[1], depth + 1)
+                    if v.op in ("list", "tuple", "ite"):
+                        return any(has_source(z, depth + 1) for z in v.a if hasattr(z, "op"))
+                    if v.op == "iter":
+                        return has_source(v.a[0], depth + 1)
+                    if v.op in ("loop", "loopvar"):
+                        return v.a[1] in ok_roots
+                    return False
+
+                if all(val_ok(v) for v in vals) and any(is_conv(v) or True for v in vals):
+                    # a root whose values only refer to itself has no source: require at least one outside source
+                    srcs = [v for v in vals if has_source(v)]
+                    if srcs:
+                        ok_roots.add(rt)
+                        changed = True
+        good = set(by_root) <= ok_roots
     yield ob(R, f, "io.load_delimited:store", good, "each column receives converter(value) unchanged, in file order (append)")
     # single column returns the list itself
     # ragged time series: first field float, rest np.array(., dtype=dtype)
@@ -527,7 +584,14 @@ def rule_patternflush(ctx):
     flushes = [m for m in s.by_kind("mutate") if m.how == "method:append" and m.root == res]
     need(len(flushes) >= 1, R, "load_patterns: no append to the result list %s" % res)
     n = 0
-    for m in flushes:
+    appended_to = {x.root for x in s.by_kind("mutate") if x.how == "method:append" and x.root}
+    pending = [m for m in flushes if root_name(m.val.a[0] if m.val.op == "tuple" and len(m.val.a) == 1 else m.val) in appended_to]
+    if not pending:
+        # another algorithm (e.g. everything is opened eagerly and the empty entries are dropped at the end): there is no
+        # pending pattern whose pending occurrence could be forgotten
+        yield ob(R, f, "io.load_patterns:flush", True, "not applicable: the patterns handed to %s are not a pending list that is filled incrementally" % res)
+        return
+    for m in pending:
         n += 1
         v = m.val.a[0] if m.val.op == "tuple" and len(m.val.a) == 1 else m.val
         attached = [x for x in tm.walk(v) if x.op == "upd" and x.a[1] == "method:append"]
@@ -543,7 +607,7 @@ def rule_patternflush(ctx):
 
 
 RULES = [
-    ("C20.PATTERNFLUSH", 2, rule_patternflush),
+    ("C20.PATTERNFLUSH", 1, rule_patternflush),
     ("C20.VALIDATORTOTAL", 10, rule_validatortotal),
     ("C20.CONVERTERS", 14, rule_converters),
     ("C20.ERRDISC", 5, rule_errdisc),
